@@ -38,6 +38,14 @@ class IvlArithLaws (α : Type) [LinearOrder α] [IvlOps α] : Prop where
   le_sub_nonpos : ∀ a m : α, m ≤ zero → a ≤ sub a m
   rem_range : ∀ x : α, negPi ≤ rem2pi x ∧ rem2pi x ≤ pi
 
+/-- Laws used only by the theorem about `s1.Length` (negative exactly for the empty interval):
+    `(-π) ⊖ π < 0`, `((-π) ⊖ π) ⊕ 2π` is not positive, and `-1 < 0`.  True of float64 (the two values are
+    exactly -2π and 0) and of exact arithmetic. -/
+class IvlLengthLaws (α : Type) [LinearOrder α] [IvlOps α] : Prop where
+  sub_negPi_pi_neg : sub (negPi : α) pi < zero
+  empty_len_not_pos : ¬ (zero : α) < add (sub (negPi : α) pi) twoPi
+  negOne_neg : (negOne : α) < zero
+
 variable {α : Type} [LinearOrder α] [IvlOps α]
 
 /-- a point of the circle in the documented range [-π, π] -/
@@ -250,6 +258,11 @@ instance : IvlArithLaws Int where
   add_nonpos_le := by intro a m h; show a + m ≤ a; have : m ≤ (0 : Int) := h; omega
   le_sub_nonpos := by intro a m h; show a ≤ a - m; have : m ≤ (0 : Int) := h; omega
   rem_range := by intro x; exact rem8_range x
+
+instance : IvlLengthLaws Int where
+  sub_negPi_pi_neg := by show (-4 - 4 : Int) < 0; decide
+  empty_len_not_pos := by show ¬ (0 : Int) < (-4 - 4) + 8; decide
+  negOne_neg := by show (-1 : Int) < 0; decide
 
 /-- on the three periods that `s1.Expanded` can reach the remainder is the obvious shift -/
 theorem rem8_cases (x : Int) :
